@@ -44,7 +44,7 @@ var (
 	csLatin = []string{"é", "ü", "ñ", "ß", "ø", "Ж", "д", "λ", "Ω", "±", "°", "¿"}
 	csCJK   = []string{"漢", "字", "日", "本", "語", "か", "な", "カ", "ナ", "Ａ", "１", "、", "。", "한", "글"}
 	csEmoji = []string{"😀", "🎉", "🚀", "𝒳", "𐍈"}
-	csZero  = []string{"e\u0301", "a\u0308", "x\u200b", "o\u0302\u0301"}
+	csZero  = []string{"e\u0301", "a\u0308", "x\u200b", "o\u0302\u0301", "\ufeff", "y\ufeff"}
 	csBad   = []string{"\xff", "\xc3", "\xe3\x81", "\x80", "\xed\xa0\x80", "\xf0\x9f\x98", "é", "漢"} // ill-formed UTF-8 (accepted inside JSON strings)
 	csEsc   = []string{`\"`, `\\`, `\n`, `\t`, `\u00e9`, `\u6f22`, `\/`, `\ud83d\ude00`}
 )
@@ -322,7 +322,14 @@ type jsonCase struct {
 	Post  []docSpec `json:"post,omitempty"`
 	Fault fault     `json:"fault"`
 	Tail  string    `json:"tail,omitempty"` // "": documents are separated and ended by a line end; "none": nothing after the last one
+	// bytes a reader might skip or reject (byte order marks, NUL, no-break and
+	// zero-width spaces) put at the very start ("start"), after leading white
+	// space ("space") or directly before the faulty document ("between")
+	Prefix   []byte `json:"prefix,omitempty"`
+	PrefixAt string `json:"prefix_at,omitempty"`
 }
+
+var jsonPrefixes = []string{"\xef\xbb\xbf", "\xfe\xff", "\xff\xfe", "\x00", "\xc2\xa0", "\xe2\x80\x8b"}
 
 func applyFault(doc []byte, f fault) (out []byte, truncated bool) {
 	if f.Raw != nil {
@@ -353,9 +360,18 @@ func (c jsonCase) docBytes() []byte {
 func (c jsonCase) build() []byte {
 	eol := &eolGen{kind: c.EOL, p: &prng{s: c.Doc.Seed ^ 0x5bd1e995}}
 	var out bytes.Buffer
+	if len(c.Prefix) > 0 && c.PrefixAt == "space" {
+		out.WriteString(" " + eol.next() + " ")
+	}
+	if len(c.Prefix) > 0 && c.PrefixAt != "between" {
+		out.Write(c.Prefix)
+	}
 	for i, d := range c.Pre {
 		out.Write(d.render(i, eol))
 		out.WriteString(eol.next())
+	}
+	if len(c.Prefix) > 0 && c.PrefixAt == "between" {
+		out.Write(c.Prefix)
 	}
 	doc, trunc := applyFault(c.docBytes(), c.Fault)
 	out.Write(doc)
